@@ -439,7 +439,7 @@ const fn convert_u32_to_px2bits<const N: u32>(a: u32) -> u32 {
             }
         } else if k == (N - 5) {
             ui_a = (0x_7FFF_FFFF ^ (0x_3FFF_FFFF >> k)) | (exp_a << (27 - k));
-            mask = 0x8 << (k - N);
+            mask = 0x8 << (k + 32 - N);
             if ((mask & frac_a) != 0) && ((((mask - 1) & frac_a) | (exp_a & 0x1)) != 0) {
                 //bitNPlusOne
                 ui_a += 0x_8000_0000_u32 >> (N - 1);
@@ -447,7 +447,7 @@ const fn convert_u32_to_px2bits<const N: u32>(a: u32) -> u32 {
         } else {
             ui_a = ((0x_7FFF_FFFF ^ (0x_3FFF_FFFF >> k)) | (exp_a << (27 - k)) | frac_a >> (k + 4))
                 & PxE2::<{ N }>::mask();
-            mask = 0x8 << (k - N); //bitNPlusOne
+            mask = 0x8 << (k + 32 - N); //bitNPlusOne
             if ((mask & frac_a) != 0) && ((((mask - 1) & frac_a) | ((mask << 1) & frac_a)) != 0) {
                 ui_a += 0x_8000_0000_u32 >> (N - 1);
             }
